@@ -150,7 +150,23 @@ func cmdCheck(args []string) int {
 	if par > 12 {
 		par = 12
 	}
-	e.Discharge(obls, outDir, timeout, par, tier == "thorough" && os.Getenv("VERIF_ALLAGREE") != "")
+	// obligations listed as known findings are expected to fail: give them a short budget only
+	expectFail := map[string]bool{}
+	for _, f := range findings {
+		if f.Property == prop && f.Kind == "finding" {
+			expectFail[f.Obligation] = true
+		}
+	}
+	var normal, expected []*Obligation
+	for _, o := range obls {
+		if expectFail[o.Name] && !o.Regioned {
+			expected = append(expected, o)
+		} else {
+			normal = append(normal, o)
+		}
+	}
+	e.Discharge(normal, outDir, timeout, par, tier == "thorough" && os.Getenv("VERIF_ALLAGREE") != "")
+	e.Discharge(expected, outDir, 2, par, false)
 	// vacuity guards: the assumptions at entry and at exit of every function must be satisfiable
 	vac := e.CheckCovers(covers, outDir)
 
